@@ -29,9 +29,13 @@ H("c11_tsan", "C11", "tsan", ["harness/c11_tsan.cc"], aux=True, args={"quick": [
 BATCH_SDK = ["common", "version", "resource", "trace", "logs"]
 for _p in ("C01", "C02", "C03"):
     H("batch_" + _p.lower(), _p, "sched", ["harness/batch_harness.cc"], sdk=BATCH_SDK,
-      args={"quick": ["--oracle=" + _p], "thorough": ["--oracle=" + _p]},
+      args={"quick": ["--oracle=" + _p, "--set=light", "--budget=100"], "thorough": ["--oracle=" + _p, "--set=light"]},
       what="real BatchSpanProcessor and BatchLogRecordProcessor (with the real CircularBuffer) driven by producer / flusher / shutdown threads; oracle " + _p,
       design_ref="5/" + _p)
+H("batch_c02_heavy", "C02", "sched", ["harness/batch_harness.cc"], sdk=BATCH_SDK,
+  args={"quick": ["--oracle=C02", "--set=heavy", "--k=1", "--budget=40"], "thorough": ["--oracle=C02", "--set=heavy", "--k=2", "--t=1", "--c=0"]},
+  what="the configurations of the batch harness with the largest state spaces (two concurrent flushers, flushers + shutdown callers), explored with a smaller preemption bound",
+  design_ref="5/C02")
 
 # --- C14 ---------------------------------------------------------------------------------------
 H("c14_tracestate", "C14", "seq", ["harness/c14_tracestate.cc"],
